@@ -1,5 +1,10 @@
 import WpModel.Drive.Loop
 import WpModel.Drive.Stacking
 import WpModel.Drive.Rounded
+import WpModel.Drive.PaintGeo
+import WpModel.Drive.ToUnicode
+import WpModel.Drive.Transform
 
-def main : IO Unit := Wp.Drive.runDriver [Wp.Drive.Stacking.handle, Wp.Drive.Rounded.handle]
+def main : IO Unit :=
+  Wp.Drive.runDriver [Wp.Drive.Stacking.handle, Wp.Drive.Rounded.handle, Wp.Drive.PaintGeo.handle,
+    Wp.Drive.ToUnicode.handle, Wp.Drive.Transform.handle]
